@@ -46,6 +46,36 @@ def _key_forms(program):
     return forms
 
 
+def reaper_cancel_rule(ctx, program, rid):
+    from ..flow import FlowPolicy, exits, run_flow
+    uid = "function.py::Function.init.task_reaper"
+    task = ObjV("victim", "Task")
+    state = {"n": 0}
+
+    def qget(i, n, a, k, c, o):
+        # first command: cancel <victim>; second: exit
+        idx = c.heap.get("$q", Const(0)).v
+        c = c.hset("$q", Const(idx + 1))
+        if idx == 0:
+            return [(c, ListV((Const("cancel"), task), "list"))]
+        return [(c, ListV((Const("exit"),), "list"))]
+
+    pol = FlowPolicy(program, may_raise_all=False, cancel=False, summaries={"reaper_q.get": qget}, events=["cmd[1].cancel", "victim.cancel"])
+    pol.loop_unroll = 3
+    out = run_flow(program, uid, pol, args={"reaper_q": ObjV("reaper_q", "Queue")})
+    bad = None
+    n = 0
+    for k, c, d in exits(out):
+        n += 1
+        cancels = [e for e in c.trace if e[0] == "call" and str(e[1]).endswith(".cancel")]
+        skipped = [(a, v) for a, v in c.assume if "victim" in repr(a) or "cancelling" in repr(a)]
+        if len(cancels) != 1:
+            bad = f"a path handles the command with {len(cancels)} cancel() call(s)" + (f" (it depends on {[repr(a) for a, v in skipped]})" if skipped else "")
+    ctx.check(n > 0 and bad is None, rid, uid, "one Task.cancel() per cancel command on every path",
+              msg=f"task_reaper: {bad or 'no path'}: the previous owner of a unique name (or a task being killed) may be left running next to the new owner",
+              key="reaper delivers cancel", node=program.func(uid), rel="function.py")
+
+
 def run(ctx):
     program = ctx.program
     fn = program.func(TU)
@@ -154,6 +184,13 @@ def run(ctx):
     ctx.check(bool(a_used) and bool(a_fact) and set(a_used) == set(a_fact) and (not a_eval or set(a_used) <= set(a_eval) | set(a_used)), "R13.8", "trigger.py::TrigInfo.call_action",
               "legacy: pre-check and claim use the same evaluator", msg=f"legacy call_action: pre-check on {a_used}, claim on {a_fact}", key="legacy unique pre-check/claim evaluator", node=ca, rel="trigger.py")
 
+    ctx.rule("R13.11", "the reaper delivers every cancel command: on each path that handles a 'cancel' command Task.cancel() is called on the named task, unconditionally, "
+             "before the reaper waits for it (a task whose own timeout is just expiring still gets the request)", floor=1)
+    reaper_cancel_rule(ctx, program, "R13.11")
+    ctx.rule("R13.10", "the evaluator a triggered function runs on is built on the function's own context: names claimed by @task_unique and by task.unique in the "
+             "body carry the same '<context>.' prefix wherever the function was created from", floor=5)
+    from .c11 import action_evaluator_rule
+    action_evaluator_rule(ctx, program, "R13.10")
     ctx.rule("R13.5", "@task_unique claims the name before the function body runs (both subsystems)", floor=2)
     # legacy: do_func_call awaits task_unique_func before ast_ctx.call_func
     uid = "trigger.py::TrigInfo.call_action.do_func_call"
